@@ -373,7 +373,57 @@ fn check_style(m: &StyleM, full: bool, evals: &mut u64) -> Vec<Bad> {
             }
         }
     }
+    // --- io::Write paths over writers that take the bytes a few at a time, and over fixed buffers that run out of room:
+    // an Ok(()) means every byte was delivered; an error means a prefix was
+    if full {
+        for (which, want) in [("Style::write_to", base.as_bytes()), ("Style::write_reset_to", reset.as_bytes())] {
+            for k in 1..=3usize {
+                *evals += 1;
+                let mut sw = ShortWriter { got: Vec::new(), per_call: k, room: usize::MAX };
+                let r = if which == "Style::write_to" { s.write_to(&mut sw) } else { s.write_reset_to(&mut sw) };
+                match r {
+                    Err(e) => bads.push(bad(which, "io-error", "short-writes", format!("a writer that accepts {k} byte(s) per call never failed, yet {e} was returned"))),
+                    Ok(()) => {
+                        if sw.got != want {
+                            bads.push(bad(which, "paths-disagree", "short-writes", format!("over a writer that accepts {k} byte(s) per call {} arrived but Display gives {}", show(&sw.got), show(want))));
+                        }
+                    }
+                }
+            }
+            for room in 0..=want.len() {
+                *evals += 1;
+                let mut sw = ShortWriter { got: Vec::new(), per_call: usize::MAX, room };
+                let r = if which == "Style::write_to" { s.write_to(&mut sw) } else { s.write_reset_to(&mut sw) };
+                match r {
+                    Ok(()) if sw.got != want => {
+                        bads.push(bad(which, "paths-disagree", "full-buffer", format!("Ok(()) over a buffer with room for {room} byte(s) but only {} arrived of {}", show(&sw.got), show(want))));
+                    }
+                    Err(_) if room >= want.len() || !want.starts_with(&sw.got) => {
+                        bads.push(bad(which, "io-error", "full-buffer", format!("error over a buffer with room for {room} byte(s); {} arrived of {}", show(&sw.got), show(want))));
+                    }
+                    _ => {}
+                }
+            }
+        }
+    }
     bads
+}
+
+/// accepts at most `per_call` bytes per `write` call and `room` bytes in total (then `Ok(0)`, like a full `&mut [u8]`)
+struct ShortWriter {
+    got: Vec<u8>,
+    per_call: usize,
+    room: usize,
+}
+impl std::io::Write for ShortWriter {
+    fn write(&mut self, buf: &[u8]) -> std::io::Result<usize> {
+        let n = buf.len().min(self.per_call).min(self.room - self.got.len().min(self.room));
+        self.got.extend_from_slice(&buf[..n]);
+        Ok(n)
+    }
+    fn flush(&mut self) -> std::io::Result<()> {
+        Ok(())
+    }
 }
 
 #[derive(Clone, Copy, PartialEq, Eq, Debug)]
